@@ -338,6 +338,231 @@ def wake_facts(docs):
     return wake_fenced, wait_fenced
 
 
+
+# ------------------------------------------------------------------ memory orders of the flag operations
+ORDERS = {"memory_order_relaxed": "MRelaxed", "memory_order_consume": "MConsume", "memory_order_acquire": "MAcquire",
+          "memory_order_release": "MRelease", "memory_order_acq_rel": "MAcqRel", "memory_order_seq_cst": "MSeqCst"}
+
+
+def flag_orders(docs):
+    """(store orders in the task closure, load orders in the other member functions) of the flag member of AsyncTask<T>"""
+    rec = None
+    for d in docs:
+        for n, ps in astutil.walk(d):
+            if n.get("kind") == "ClassTemplateDecl" and n.get("name") == "AsyncTask":
+                for c in kids(n):
+                    if c.get("kind") == "CXXRecordDecl" and c.get("completeDefinition"):
+                        rec = c
+    if rec is None:
+        raise FactError("AsyncTask not found")
+    flag, atomic = None, False
+    for c in kids(rec):
+        if c.get("kind") == "FieldDecl":
+            ty = c.get("type", {}).get("qualType", "").replace(" ", "")
+            if ty in ("std::atomic<bool>", "atomic<bool>", "std::atomic_bool", "bool", "volatilebool"):
+                flag, atomic = c.get("name"), "atomic" in ty
+    if flag is None:
+        raise FactError("flag member not found")
+    stores, loads = [], []
+
+    def order_arg(call, default):
+        for a in kids(call)[1:]:
+            for x, _ in astutil.walk(a):
+                nm = (x.get("referencedDecl") or {}).get("name", "")
+                if nm in ORDERS:
+                    return ORDERS[nm]
+            if [x for x, _ in astutil.walk(a) if x.get("kind") == "DeclRefExpr" and "memory_order" in x.get("type", {}).get("qualType", "")]:
+                return "MRelaxed"      # an order we cannot name: assume the weakest
+        return default
+
+    def visit(n, parents):
+        if n.get("kind") == "MemberExpr" and n.get("name") == flag and kids(n) and kids(n)[0].get("kind") == "CXXThisExpr":
+            if not atomic:
+                # classify by syntactic position: assignment target = store
+                par = parents[-1] if parents else {}
+                is_store = par.get("kind") == "BinaryOperator" and par.get("opcode") == "=" and kids(par)[0] is n
+                (stores if is_store else loads).append("MNonAtomic")
+                return
+            # climb to the operation applied to the flag
+            op, node = None, n
+            for par in reversed(parents):
+                k = par.get("kind")
+                if k in ("ImplicitCastExpr", "ParenExpr"):
+                    node = par
+                    continue
+                if k == "MemberExpr" and kids(par) and kids(par)[0] is node:
+                    op, node = par.get("name"), par
+                    continue
+                if k == "CXXMemberCallExpr" and kids(par)[0] is node:
+                    if op == "store":
+                        stores.append(order_arg(par, "MSeqCst"))
+                    elif op == "load":
+                        loads.append(order_arg(par, "MSeqCst"))
+                    elif op in ("exchange", "compare_exchange_strong", "compare_exchange_weak", "fetch_or", "fetch_and"):
+                        o = order_arg(par, "MSeqCst"); stores.append(o); loads.append(o)
+                    elif op and op.startswith("operator"):     # conversion operator: a seq_cst load
+                        loads.append("MSeqCst")
+                    else:
+                        loads.append("MRelaxed"); stores.append("MRelaxed")    # unknown operation: fail closed
+                    return
+                if k == "CXXOperatorCallExpr":
+                    stores.append("MSeqCst")      # operator= on std::atomic: a seq_cst store
+                    return
+                break
+            loads.append("MRelaxed"); stores.append("MRelaxed")                # unknown use: fail closed
+    def rec_walk(n, parents):
+        visit(n, parents)
+        for c in kids(n):
+            rec_walk(c, parents + [n])
+    for c in kids(rec):
+        if c.get("kind") in ("CXXConstructorDecl", "CXXMethodDecl", "CXXDestructorDecl") and not c.get("isImplicit"):
+            rec_walk(c, [])
+    return stores, loads
+
+
+# ------------------------------------------------------ complete statement lists of the per-backend glue code
+def stmt_leaves(body):
+    for c in kids(body):
+        if c.get("kind") == "CompoundStmt":
+            yield from stmt_leaves(c)
+        elif c.get("kind") != "NullStmt":
+            yield c
+
+
+def names_in(n):
+    out = []
+    for x, _ in astutil.walk(n):
+        if x.get("kind") == "MemberExpr" and x.get("name"):
+            out.append(x["name"])
+        if x.get("kind") in ("DeclRefExpr",) and (x.get("referencedDecl") or {}).get("name"):
+            out.append(x["referencedDecl"]["name"])
+        if x.get("kind") == "UnresolvedLookupExpr" and x.get("name"):
+            out.append(x["name"])
+    return out
+
+
+def token(st, param):
+    k = st.get("kind")
+    if k == "DeclStmt":
+        vs = [v for v in kids(st) if v.get("kind") == "VarDecl"]
+        if len(vs) != 1 or len(kids(st)) != 1:
+            return "SUnknown"
+        v = vs[0]
+        if v.get("storageClass") or v.get("tls"):
+            return "SUnknown"             # static / thread_local local: shared between calls
+        ty = v.get("type", {}).get("qualType", "")
+        nm = names_in(v)
+        attaches = "attach" in nm or any("attach" in x.get("type", {}).get("qualType", "") for x, _ in astutil.walk(v) if x is not v)
+        if "task_arena" in ty and attaches:
+            return "SArenaLocal"
+        if ty.replace(" ", "") in ("std::thread", "thread") and param in nm:
+            return "SThreadLocal"
+        return "SUnknown"
+    if k == "IfStmt":
+        ks = kids(st)
+        if len(ks) == 2 and "joinable" in names_in(ks[0]) and names_in(ks[1])[:1] == ["join"] and \
+                len([x for x, _ in astutil.walk(st) if x.get("kind") in ("CallExpr", "CXXMemberCallExpr")]) == 2:
+            return "SJoinIfJoinable"
+        return "SUnknown"
+    s = st
+    while s.get("kind") in ("ExprWithCleanups", "ImplicitCastExpr", "ParenExpr") and len(kids(s)) == 1:
+        s = kids(s)[0]
+    if s.get("kind") in ("CallExpr", "CXXMemberCallExpr", "CXXOperatorCallExpr"):
+        calls = [x for x, _ in astutil.walk(s) if x.get("kind") in ("CallExpr", "CXXMemberCallExpr", "CXXOperatorCallExpr")]
+        callee = names_in(kids(s)[0])
+        args = [nm for a in kids(s)[1:] for nm in names_in(a)]
+        inner_ok = all(names_in(kids(c)[0])[:1] in (["forward"], ["move"]) for c in calls[1:])
+        if not inner_ok:
+            return "SUnknown"
+        head = callee[0] if callee else None
+        if s.get("kind") == "CXXOperatorCallExpr" and param in args[:2] and "operator()" in callee:
+            return "SCallDirect"
+        if head == param and s.get("kind") == "CallExpr":
+            return "SCallDirect"
+        table = {"enqueue": "SEnqueue", "detach": "SDetach", "schedule_internal": "SCallInternal", "run": "SRun",
+                 "scheduleTaskInternal": "SSchedInternal", "waitInternal": "SWaitInternal", "wait": "SWaitGroup"}
+        if head in table:
+            tok = table[head]
+            if tok in ("SEnqueue", "SCallInternal", "SRun") and param not in args:
+                return "SUnknown"
+            return tok
+    return "SUnknown"
+
+
+def glue_facts(docs, backend):
+    """schedule_impl (instantiated), AsyncTaskImpl constructor and wait() (instantiated): complete statement lists"""
+    sched = None
+    for d in docs:
+        for n, ps in astutil.walk(d):
+            if n.get("kind") == "FunctionTemplateDecl" and n.get("name") == "schedule_impl":
+                fns = [c for c in kids(n) if c.get("kind") == "FunctionDecl" and any(x.get("kind") == "CompoundStmt" for x in kids(c))]
+                if len(fns) >= 2:
+                    sched = fns[-1]          # an instantiation (member names resolved)
+    if sched is None:
+        raise FactError("%s: no instantiation of schedule_impl" % backend)
+    pn = [c.get("name") for c in kids(sched) if c.get("kind") == "ParmVarDecl"][0]
+    body = [c for c in kids(sched) if c.get("kind") == "CompoundStmt"][0]
+    s_list = [token(st, pn) for st in stmt_leaves(body)]
+    spec = None
+    for d in docs:
+        for n, ps in astutil.walk(d):
+            if n.get("kind") == "ClassTemplateSpecializationDecl" and n.get("name") == "AsyncTaskImpl" and n.get("completeDefinition"):
+                spec = n
+    if spec is None:
+        raise FactError("%s: no instantiation of AsyncTaskImpl" % backend)
+    ctor = [c for c in kids(spec) if c.get("kind") == "CXXConstructorDecl" and not c.get("isImplicit") and
+            any(x.get("kind") == "CompoundStmt" for x in kids(c))]
+    wait = [c for c in kids(spec) if c.get("kind") == "CXXMethodDecl" and c.get("name") == "wait" and
+            any(x.get("kind") == "CompoundStmt" for x in kids(c))]
+    if len(ctor) != 1 or len(wait) != 1:
+        raise FactError("%s: AsyncTaskImpl constructor / wait() not instantiated" % backend)
+    cp = [c.get("name") for c in kids(ctor[0]) if c.get("kind") == "ParmVarDecl"][0]
+    c_list = []
+    for ini in [c for c in kids(ctor[0]) if c.get("kind") == "CXXCtorInitializer"]:
+        if ini.get("anyInit") and not ini.get("isWritten", True):
+            continue
+        nm = names_in(ini)
+        written = any((x.get("range") or {}).get("begin") for x, _ in astutil.walk(ini))
+        if cp in nm:
+            c_list.append("SInitMember")
+        elif nm or written and [x for x, _ in astutil.walk(ini) if x.get("kind") in ("CallExpr", "CXXMemberCallExpr")]:
+            c_list.append("SUnknown")
+    cb = [c for c in kids(ctor[0]) if c.get("kind") == "CompoundStmt"][0]
+    c_list += [token(st, cp) for st in stmt_leaves(cb)]
+    wb = [c for c in kids(wait[0]) if c.get("kind") == "CompoundStmt"][0]
+    w_list = [token(st, "") for st in stmt_leaves(wb)]
+    return s_list, c_list, w_list
+
+
+def async_unknown(docs):
+    """statements of async() other than: static_assert / alias declarations, the new, get_future, schedule(lambda), return future"""
+    fn = None
+    for d in docs:
+        for n, ps in astutil.walk(d):
+            if n.get("kind") == "FunctionTemplateDecl" and n.get("name") == "async":
+                fn = [c for c in kids(n) if c.get("kind") == "FunctionDecl"][0]
+    body = [c for c in kids(fn) if c.get("kind") == "CompoundStmt"][0]
+    unknown = 0
+    for st in kids(body):
+        k = st.get("kind")
+        if k == "DeclStmt":
+            for dcl in kids(st):
+                if dcl.get("kind") in ("StaticAssertDecl", "TypeAliasDecl", "TypedefDecl"):
+                    continue
+                if dcl.get("kind") == "VarDecl" and not dcl.get("storageClass") and \
+                        ([x for x, _ in astutil.walk(dcl) if x.get("kind") == "CXXNewExpr"] or
+                         [x for x, _ in astutil.walk(dcl) if x.get("member") == "get_future" or x.get("name") == "get_future"]):
+                    continue
+                unknown += 1
+        elif k == "ReturnStmt":
+            continue
+        elif calls_named(st, "schedule") and find_all(st, lambda x: x.get("kind") == "LambdaExpr"):
+            continue
+        else:
+            unknown += 1
+    return unknown
+
+
 def coq_list(xs):
     return "[" + "; ".join(xs) + "]"
 
@@ -357,19 +582,39 @@ def main():
                      os.path.join(work, "c02_tryrun.json"))
         dec_after, seq = tryrun_facts(docs2)
         wake_fenced, wait_fenced = wake_facts(docs2)
+        st_orders, ld_orders = flag_orders(docs)
+        from concurrent.futures import ThreadPoolExecutor
+        bdefs = {"tbb": ["-DRKCOMMON_TASKING_TBB"], "omp": ["-DRKCOMMON_TASKING_OMP", "-fopenmp"], "dbg": []}
+        with ThreadPoolExecutor(max_workers=3) as ex:
+            futs = {k: ex.submit(dump, repo, inc, os.path.join(HERE, "inst.cpp"), "rkcommon::tasking::detail",
+                                 os.path.join(work, "c02_glue_%s.json" % k), v) for k, v in bdefs.items()}
+            gdocs = {k: f.result() for k, f in futs.items()}
+        gdocs["int"] = docs
+        glue = {k: glue_facts(gdocs[k], k) for k in ("tbb", "omp", "int", "dbg")}
+        a_unknown = async_unknown(docs)
     except FactError as e:
         sys.stderr.write("gen_facts: %s\n" % e)
         sys.exit(2)
     b = lambda x: "true" if x else "false"
+    publishes = "(flag_publishes flag_store_orders_src flag_load_orders_src)"
     txt = """(* GENERATED on every run by tools/c02facts/gen_facts.py from the clang AST of the
    repository working tree.  Do not edit. *)
 From Coq Require Import List.
 Import ListNotations.
 From C02 Require Import Model Sched.
 
-(* AsyncTask<T>: member declaration order, task lambda, get(), destructor, flag type *)
+(* memory orders of the operations on jobFinished: stores in the task closure, loads in finished()/valid()/get() *)
+Definition flag_store_orders_src : list morder := %s.
+Definition flag_load_orders_src : list morder := %s.
+(* AsyncTask<T>: member declaration order, task lambda, get(), destructor, does the flag publish the result *)
 Definition facts_src : facts :=
   mkfacts %s %s %s %s %s.
+(* complete statement lists of schedule_impl / AsyncTaskImpl::AsyncTaskImpl / AsyncTaskImpl::wait per backend *)
+Definition sched_impl_src : backend -> list sstmt := fun b => match b with BTbb => %s | BOmp => %s | BInt => %s | BDbg => %s end.
+Definition impl_ctor_src : backend -> list sstmt := fun b => match b with BTbb => %s | BOmp => %s | BInt => %s | BDbg => %s end.
+Definition impl_wait_src : backend -> list sstmt := fun b => match b with BTbb => %s | BOmp => %s | BInt => %s | BDbg => %s end.
+(* statements of async() outside the recognised ones *)
+Definition async_unknown_stmts_src : nat := %s.
 
 (* async(): events on the heap packaged_task before / after schedule(closure), and in the closure *)
 Definition async_pre_src : list aev := %s.
@@ -383,13 +628,16 @@ Definition tryrun_dec_after_exec_src : bool := %s.
 (* wake-up handshake: WakeThreads reads m_NumThreadsWaiting behind a full barrier / WaitForTasks increments it atomically first *)
 Definition wake_fenced_src : bool := %s.
 Definition wait_fenced_src : bool := %s.
-""" % (coq_list(order), coq_list(task), kind, b(dtor_waits), b(flag_atomic),
+""" % (coq_list(st_orders), coq_list(ld_orders), coq_list(order), coq_list(task), kind, b(dtor_waits), publishes,
+       coq_list(glue["tbb"][0]), coq_list(glue["omp"][0]), coq_list(glue["int"][0]), coq_list(glue["dbg"][0]),
+       coq_list(glue["tbb"][1]), coq_list(glue["omp"][1]), coq_list(glue["int"][1]), coq_list(glue["dbg"][1]),
+       coq_list(glue["tbb"][2]), coq_list(glue["omp"][2]), coq_list(glue["int"][2]), coq_list(glue["dbg"][2]), a_unknown,
        coq_list(pre), coq_list(post), coq_list(clos), coq_list(xs), seq, b(dec_after), b(wake_fenced), b(wait_fenced))
     old = open(out).read() if os.path.exists(out) else None
     if old != txt:
         open(out, "w").write(txt)
-    print("facts: order=%s task=%s get=%s dtor_waits=%s atomic=%s | async pre=%s post=%s body=%s | exec_range=%s tryrun=%s wake_fenced=%s wait_fenced=%s"
-          % (order, task, kind, dtor_waits, flag_atomic, pre, post, clos, xs, seq, wake_fenced, wait_fenced))
+    print("facts: order=%s task=%s get=%s dtor_waits=%s atomic=%s | async pre=%s post=%s body=%s | exec_range=%s tryrun=%s wake_fenced=%s wait_fenced=%s | flag stores=%s loads=%s | glue=%s async_unknown=%s"
+          % (order, task, kind, dtor_waits, flag_atomic, pre, post, clos, xs, seq, wake_fenced, wait_fenced, st_orders, ld_orders, glue, a_unknown))
 
 
 if __name__ == "__main__":
